@@ -261,6 +261,17 @@ class _Inline(_InternalNode):
         if not list(self.subgraphs):
             self.__dict__["_proto_cache"] = (scope.node[self], node_proto.SerializeToString())
         return [node_proto]""")]),
+    # ---- round 6: the statements of build itself (order of the checks, option handling)
+    "empty-outputs-check-first": (["C03"], [("src/spox/_public.py",
+        """    if not all(isinstance(var, Var) for var in inputs.values()):
+        seen_types = {type(obj) for obj in inputs.values()}""",
+        """    if not outputs:
+        raise ValueError("Build outputs must not be empty for the graph to be valid.")
+    if not all(isinstance(var, Var) for var in inputs.values()):
+        seen_types = {type(obj) for obj in inputs.values()}""")]),
+    "with-arguments-also-when-dropping": (["C03", "C12"], [("src/spox/_public.py",
+        "        if not drop_unused_inputs:\n            graph = graph.with_arguments(*inputs.values())",
+        "        if not drop_unused_inputs or len(inputs) == 1:\n            graph = graph.with_arguments(*inputs.values())")]),
 }
 
 
